@@ -153,15 +153,19 @@ pub fn interpret(data: &Rcvar, node: &Ast, ctx: &mut Context<'_>) -> SearchResul
                 fn_args.push(interpret(data, arg, ctx)?);
             }
             // Reset the offset so that it points to the function being evaluated.
+            let previous_offset = ctx.offset;
             ctx.offset = offset;
-            match ctx.runtime.get_function(name) {
+            let result = match ctx.runtime.get_function(name) {
                 Some(f) => f.evaluate(&fn_args, ctx),
                 None => {
                     let reason =
                         ErrorReason::Runtime(RuntimeError::UnknownFunction(name.to_owned()));
                     Err(JmespathError::from_ctx(ctx, reason))
                 }
-            }
+            };
+            // Restore it, so that an enclosing call that fails later points at itself.
+            ctx.offset = previous_offset;
+            result
         }
         Ast::Expref { ref ast, .. } => Ok(Rcvar::new(Variable::Expref(*ast.clone()))),
         Ast::Slice {
